@@ -59,6 +59,25 @@ func accFreshRule(c *Ctx, fns []*ssa.Function) int {
 				if _, isSl := ph.Type().Underlying().(*types.Slice); !isSl {
 					continue
 				}
+				// scratch: the value P has when the loop is entered is memory of this function (nil, make, a literal),
+				// not a window into an input
+				scratch, resliced := true, false
+				for i, pr := range hd.Preds {
+					if hd.Dominates(pr) {
+						continue
+					}
+					switch e := ph.Edges[i].(type) {
+					case *ssa.Const:
+						scratch = scratch && e.IsNil()
+					case *ssa.MakeSlice:
+					case *ssa.Slice:
+						if _, isAlloc := e.X.(*ssa.Alloc); !isAlloc {
+							scratch = false
+						}
+					default:
+						scratch = false
+					}
+				}
 				// derived: P extended by appends only
 				memo := map[ssa.Value]int{} // 1 = in progress, 2 = yes, 3 = no
 				var derived func(v ssa.Value) bool
@@ -86,6 +105,12 @@ func accFreshRule(c *Ctx, fns []*ssa.Function) int {
 						}
 					case *ssa.ChangeType:
 						ok = derived(x.X)
+					case *ssa.Slice:
+						// a re-slice keeps the backing array: buf[:0] followed by appends rewrites the octets an
+						// earlier element still points at (only for a scratch buffer of this function, see below)
+						if scratch && derived(x.X) {
+							ok, resliced = true, true
+						}
 					}
 					if ok {
 						memo[v] = 2
@@ -106,6 +131,53 @@ func accFreshRule(c *Ctx, fns []*ssa.Function) int {
 					if e != ssa.Value(ph) {
 						grows = true
 					}
+				}
+				// stale carry: on some path through the body the value of the previous iteration survives unchanged
+				// (a buffer refreshed only under a condition) and the merged value is stored inside the loop
+				var carried []ssa.Value
+				if !acc {
+					for i, pr := range hd.Preds {
+						if !hd.Dominates(pr) {
+							continue
+						}
+						if p2, ok := ph.Edges[i].(*ssa.Phi); ok && body[p2.Block()] && p2 != ph {
+							hasOld, hasFresh := false, false
+							for _, e := range p2.Edges {
+								if e == ssa.Value(ph) {
+									hasOld = true
+								} else {
+									hasFresh = true
+								}
+							}
+							if hasOld && hasFresh {
+								carried = append(carried, p2)
+							}
+						}
+					}
+				}
+				if len(carried) > 0 {
+					var bad []string
+					for b := range body {
+						for _, in2 := range b.Instrs {
+							if st, ok := in2.(*ssa.Store); ok {
+								for _, cv := range carried {
+									if st.Val == cv {
+										bad = append(bad, p.Position(st.Pos()))
+									}
+								}
+							}
+						}
+					}
+					sort.Strings(bad)
+					if len(bad) > 0 {
+						name := ph.Comment
+						if name == "" {
+							name = ph.Name()
+						}
+						r.Add("STRUCT.accfresh", core.FuncName(fn), fmt.Sprintf("buffer %s handed over inside the loop is made afresh for every element", name), p.Position(ph.Pos()), false,
+							fmt.Sprintf("%s is given a new value only on some paths through the loop body; on the others the value of the previous iteration is stored again at %s", name, bad[0]))
+					}
+					continue
 				}
 				if !acc || !grows {
 					continue
@@ -128,7 +200,10 @@ func accFreshRule(c *Ctx, fns []*ssa.Function) int {
 				if name == "" {
 					name = ph.Name()
 				}
-				if len(bad) > 0 {
+				if len(bad) > 0 && resliced {
+					r.Add("STRUCT.accfresh", core.FuncName(fn), fmt.Sprintf("scratch buffer %s handed over inside the loop is not reused for the next element", name), p.Position(ph.Pos()), false,
+						fmt.Sprintf("%s is re-sliced and refilled in every iteration of the loop at %s while its value is stored at %s inside that loop: the elements stored share one backing array", name, p.Position(hd.Instrs[len(hd.Instrs)-1].Pos()), bad[0]))
+				} else if len(bad) > 0 {
 					r.Add("STRUCT.accfresh", core.FuncName(fn), fmt.Sprintf("accumulator %s handed over inside the loop is started afresh for every element", name), p.Position(ph.Pos()), false,
 						fmt.Sprintf("%s is only ever appended to across the iterations of the loop at %s, and its value is stored at %s inside that loop: every element also contains the earlier ones", name, p.Position(hd.Instrs[len(hd.Instrs)-1].Pos()), bad[0]))
 				}
